@@ -21,6 +21,12 @@ macro_rules! properties {
                 _ => None,
             }
         }
+        /// every op name with its owning property (op names must be globally unique)
+        pub fn all_ops() -> Vec<(&'static str, &'static str)> {
+            let mut v = Vec::new();
+            $( for op in $m::OPS { v.push((*op, $id)); } )*
+            v
+        }
         pub fn exec(op: &str, t: &mut Toks) -> Option<String> {
             $( if $m::OPS.contains(&op) { return $m::exec(op, t); } )*
             None
